@@ -140,10 +140,15 @@ def h_crash(k: int) -> bool:
             st, cache, other = _mk_objects(env, None, SCEN)
             env.inner.crash_at = len(env.inner.log) + kk
         crashed = False
+        at = ""
         try:
             _operation(env, st, cache, other, SCEN)
-        except Crash:
+        except Crash as c:
             crashed = True
+            # the crash point is named in the violation tag when it is the one known window (see known_findings.json): death after
+            # dvc_objects' reflink probe created the destination in place and before it unlinked it again
+            if c.args and c.args[0][0] == "reflink-unlink":
+                at = "@reflink-probe-window"
         except HarnessGap:
             raise
         except Exception as e:  # noqa: BLE001
@@ -154,7 +159,7 @@ def h_crash(k: int) -> bool:
             return True
         with NoTracing():
             table = dict(st.hashes.table)
-            _audit(env, cache, table, "")
+            _audit(env, cache, table, at)
             # new process: in-memory objects are gone, the filesystem and the committed state rows survive
             env.inner.frozen = False
             env.inner.crash_at = None
@@ -167,17 +172,17 @@ def h_crash(k: int) -> bool:
             violation("re-run-after-crash-raised", (kk, f"{type(e).__name__}: {e}"))
             return True
         with NoTracing():
-            real = _audit(env, cache2, dict(st2.hashes.table), "-after-rerun")
+            real = _audit(env, cache2, dict(st2.hashes.table), "-after-rerun" + at)
             for oid, data in real.items():
                 if hashlib.md5(data).hexdigest() != oid.split(".")[0]:
-                    violation("mismatching-object-survives-re-run", (kk, oid))
+                    violation("mismatching-object-survives-re-run" + at, (kk, oid))
             if set(real) != set(ref_objs):
-                violation("re-run-does-not-converge-to-uninterrupted-result", (kk, sorted(set(real) ^ set(ref_objs))))
+                violation("re-run-does-not-converge-to-uninterrupted-result" + at, (kk, sorted(set(real) ^ set(ref_objs))))
             if CLS == "local":
                 modes = env.odb_modes(cache2)
                 bad = [o for o in real if modes.get(o) != 0o444]
                 if bad:
-                    violation("object-not-protected-after-re-run", (kk, bad))
+                    violation("object-not-protected-after-re-run" + at, (kk, bad))
         journal({"scenario": SCEN, "n": n, "k": kk}, nontrivial=True)
         return True
     finally:
